@@ -11,7 +11,11 @@ FINISH = dict(level="proof", rule=(
     "PATH_MAX-1 / PATH_MAX / none, each page of the region readable or not; hostile runs: unterminated and PATH_MAX-sized "
     "paths, strings crossing into unmapped pages, NULL / kernel / non-canonical / unmapped pointers, 64-bit garbage in dirfd, "
     "unknown / negative / x32 syscall numbers, unreadable and page-straddling open_how, bad execve, tasks created and killed "
-    "by exit_group while they trap (repeated to hit the ESRCH windows).  Non-trivial: every case; distinct = distinct bodies."))
+    "by exit_group while they trap (repeated to hit the ESRCH windows); thread groups ended at a random moment (exit_group of a sibling / of the "
+    "leader, SIGKILL from a child / a sibling, execve of a sibling, cancellation by the owner) while 1..4 tasks are inside traced path syscalls "
+    "(cwd-relative, dirfd-relative, empty, absolute; open / stat / access / readlink / unlink / rename / chmod / mkdir / execve families; cwd = work "
+    "directory, sub directory, \"/\", a long nested one; every syscall trapping or only the path syscalls): the verdict is the one of the program's "
+    "own end.  Non-trivial: every case; distinct = distinct bodies."))
 
 HDR = "From GS Require Import Tracer.Mem Tracer.EvalMem.\nOpen Scope N_scope.\n"
 SCEN = ["unterminated", "exact4096", "unaligned_long", "cross_unmapped", "cross_ok", "null_ptr", "kernel_ptr", "noncanonical_ptr",
@@ -20,10 +24,52 @@ SCEN = ["unterminated", "exact4096", "unaligned_long", "cross_unmapped", "cross_
         "open_flags_3", "open_flags_ffffffff", "open_flags_deadbeef00000003", "open_flags_7fffffffffffffff", "open_flags_243", "open_flags_80003"]
 RACES = ["threads_exit", "clone_exit", "fork_kill"]
 
+# ---- tasks that die while the tracer is handling one of their traced path syscalls (the ESRCH windows of the path handling):
+# who ends the thread group x which path syscall the dying tasks are in x the cwd x which syscalls trap x how many tasks x when
+DY_KILLERS = ["sibling_exit_group", "leader_exit_group", "sigkill_child", "sigkill_sibling", "exec_sibling", "none"]
+DY_FORMS = ["open_rel", "openat_cwd_rel", "openat_cwd_dotdot", "openat_cwd_dot", "openat_cwd_empty", "openat_cwd_sx64", "openat_cwd_zx64",
+            "openat_dirfd_rel", "openat_badfd_rel", "openat2_cwd_rel", "open_symlink_rel", "open_create_rel", "open_abs", "stat_rel", "lstat_rel",
+            "fstatat_cwd_rel", "access_rel", "faccessat_cwd_rel", "readlink_rel", "readlinkat_cwd_rel", "unlink_rel", "unlinkat_cwd_rel",
+            "rename_rel", "renameat_cwd_rel", "chmod_rel", "mkdirat_cwd_rel", "execve_rel", "execveat_cwd_rel"]
+DY_CREATES = ("open_create_rel", "mkdirat_cwd_rel")          # never run with the host's "/" as cwd
+DY_CWDS = ["wd", "sub", "root", "deep"]
+DY_FILTERS = ["all", "paths"]
+# the verdict that describes how the program ends: exit_group(0) / exit(0) of the image a sibling switched to -> Normal; SIGKILL (sent
+# by the program to itself, or by the owner of a cancelled run) -> Signalled, which this runner reports as Time Limit Exceeded
+DY_WANT = {"sibling_exit_group": [1], "leader_exit_group": [1], "exec_sibling": [1], "sigkill_child": [2, 6], "sigkill_sibling": [2, 6], "none": [2, 6]}
+STATUS_NAMES = {0: "Invalid", 1: "Normal", 2: "Time Limit Exceeded", 3: "Memory Limit Exceeded", 4: "Output Limit Exceeded",
+                5: "Disallowed Syscall", 6: "Signalled", 7: "Nonzero Exit Status", 8: "Runner Error"}
+
+
+def dying_cases(c, first_id):
+    r = c.rng("dying")
+    out = []
+
+    def add(killer, form, cwd, filt, workers, delay, reps):
+        if cwd == "root" and form in DY_CREATES:
+            cwd = "sub"
+        out.append({"id": first_id + len(out), "kind": "dying", "killer": killer, "form": form, "cwd": cwd, "filter": filt, "workers": workers,
+                    "maxdelay_us": delay, "reps": reps, "want_status": DY_WANT[killer]})
+    if c.quick():
+        # every form once, the other dimensions spread over the forms (each killer, filter and cwd several times)
+        forms = list(DY_FORMS)
+        r.shuffle(forms)
+        for i, f in enumerate(forms):
+            k = DY_KILLERS[i % len(DY_KILLERS)]
+            add(k, f, DY_CWDS[(i // 2) % len(DY_CWDS)], DY_FILTERS[(i + i // len(DY_KILLERS)) % 2], r.choice([1, 2, 3]),
+                r.choice([0, 30, 300, 3000]) if k != "none" else r.choice([300, 3000]), 5)
+    else:
+        for f in DY_FORMS:
+            for k in DY_KILLERS:
+                for filt in DY_FILTERS:
+                    add(k, f, r.choice(DY_CWDS), filt, r.choice([1, 2, 3, 4]), r.choice([0, 10, 30, 100, 300, 3000]) if k != "none" else r.choice([100, 300, 3000, 20000]), 6)
+    return out
+
 
 def run(c):
     exe = c.build_harness("h_c15")
     c.build_probe("target")
+    c.build_probe("dying")
     r = c.rng("getstring")
     dis = []
     gc = []
@@ -80,6 +126,8 @@ def run(c):
     hc = [{"id": i, "kind": "hostile", "scenario": s, "reps": 2 if c.quick() else 10} for i, s in enumerate(SCEN)]
     for s in RACES:
         hc.append({"id": len(hc), "kind": "hostile", "scenario": s, "reps": 60 if c.quick() else 600})
+    n_hostile = len(hc)
+    hc += dying_cases(c, len(hc))
     henv = dict(os.environ, VERIF_SCRATCH=c.tmpdir("wd"))
     try:
         ho = c.run_harness(exe, hc, timeout=1800, env=henv)
@@ -90,11 +138,38 @@ def run(c):
             try:
                 ho.append(c.run_harness(exe, [x], timeout=600, env=henv)[0])
             except RuntimeError as e1:
-                c.finding_or_violation({"kind": "runner-process-dies-on-the-programs-account", "scenario": x["scenario"]},
-                                       {"case": x, "end_of_the_runner_process": str(e1)[-1500:]}, klass="rdie:" + x["scenario"])
+                name = x.get("scenario") or "dying:%s/%s/%s/%s" % (x["killer"], x["form"], x["cwd"], x["filter"])
+                c.finding_or_violation({"kind": "runner-process-dies-on-the-programs-account", "scenario": name},
+                                       {"case": x, "end_of_the_runner_process": str(e1)[-1500:]}, klass="rdie:" + name)
                 ho.append({"statuses": {}, "runner_error": "", "slowest_ms": 0})
         if not c.violations:
             raise e0
+    for x, o in zip(hc[n_hostile:], ho[n_hostile:]):
+        what = "%s/%s/%s/%s" % (x["killer"], x["form"], x["cwd"], x["filter"])
+        c.count(("dying", x["killer"], x["form"], x["cwd"], x["filter"], x["workers"], x["maxdelay_us"]), klass="dying")
+        st = {int(k): v for k, v in o.get("statuses", {}).items()}
+        c.evaluations += max(0, sum(st.values()) - 1)
+        bad = o.get("unexpected") or []
+        rep = {"case": x, "program": "build/bin/probe_dying %s %s %s %d %d  (seccomp: %s; started in a scratch directory, the program moves to the cwd '%s' itself%s)" % (
+            x["killer"], x["form"], x["cwd"], x["workers"], x["maxdelay_us"], "every syscall traps" if x["filter"] == "all" else "only the path syscalls trap", x["cwd"],
+            "; the owner cancels the run 0..%d us after the workers started" % x["maxdelay_us"] if x["killer"] == "none" else ""),
+            "expected_verdict": [STATUS_NAMES[w] for w in x["want_status"]], "observed_verdicts": {STATUS_NAMES.get(k, str(k)): v for k, v in st.items()},
+            "unexpected_runs": bad}
+        if st.get(8):
+            err = next((b["error"] for b in bad if b["status"] == 8), "")
+            c.finding_or_violation({"kind": "runner-error-while-the-program-dies-in-a-path-syscall", "killer": x["killer"], "form": x["form"], "error": err[:80]},
+                                   rep, klass="dy-rerr:" + x["killer"])
+        if st.get(5):
+            c.finding_or_violation({"kind": "false-policy-violation-while-the-program-dies", "killer": x["killer"], "form": x["form"]}, rep, klass="dy-disallowed:" + x["killer"])
+        if o.get("slowest_ms", 0) > 8000 or (st.get(2) and 2 not in x["want_status"]):
+            c.finding_or_violation({"kind": "tracer-stops-making-progress-while-the-program-dies", "killer": x["killer"], "form": x["form"], "slowest_ms": o.get("slowest_ms", 0)},
+                                   rep, klass="dy-slow:" + x["killer"])
+        other = [k for k in st if k not in x["want_status"] and k not in (8, 5, 2)]
+        if other:
+            c.finding_or_violation({"kind": "verdict-is-not-about-the-programs-end", "killer": x["killer"], "form": x["form"], "verdicts": sorted(other)}, rep,
+                                   klass="dy-verdict:" + x["killer"])
+    c.cov["dying_scenarios"] = len(hc) - n_hostile
+    del hc[n_hostile:], ho[n_hostile:]
     for x, o in zip(hc, ho):
         c.count(("hostile", x["scenario"]), klass="hostile")
         c.evaluations += x["reps"] - 1
@@ -107,7 +182,9 @@ def run(c):
             c.finding_or_violation({"kind": "false-policy-violation", "scenario": x["scenario"]}, {"case": x, "statuses": o["statuses"]},
                                    klass="disallowed:" + x["scenario"])
         # none of these programs computes or sleeps: a slow run or a Time Limit verdict means the tracer stopped making progress
-        if o["slowest_ms"] > 4000 or st.get(2):
+        # (each takes 0.1 to 0.3 s on a quiet machine and was seen at 4.2 s with 45 runnable processes; every run has a 10 s deadline, so a
+        # tracer that stops shows as a Time Limit verdict in any case)
+        if o["slowest_ms"] > 8000 or st.get(2):
             c.finding_or_violation({"kind": "tracer-stops-making-progress", "scenario": x["scenario"], "slowest_ms": o["slowest_ms"]},
                                    {"case": x, "statuses": o["statuses"]}, klass="slow:" + x["scenario"])
         if st.get(0):
